@@ -1,6 +1,6 @@
 (* C20Check.v — trace validation of the REAL tracing integration against Model/Tracing.v, and the C20
    monitor, written against the property text on the totally ordered history of a run. *)
-From CV Require Import Model.Base Model.Events Model.Tracing Check.Verdict.
+From CV Require Import Model.Base Model.Events Model.Tracing Model.TracingStart Check.Verdict.
 
 Inductive trec :=
 | RCb (s st k span : N)                 (* a step body starts: scenario, step, attempt, its span *)
@@ -80,6 +80,62 @@ Definition same_as_model (c : tcase) : bool :=
   | None => false
   end.
 
+(* ---- the same history against the layer with Started events (TracingStart.v) ---- *)
+Definition all_cbs (h : list trec) : list (N * N * N * N) :=
+  flat_map (fun r => match r with RCb s st k x => [(s, st, k, x)] | _ => [] end) h.
+Definition after_spans (h : list trec) : list N :=
+  flat_map (fun r => match r with RCb _ st _ x => if st =? hook_id false then [x] else [] | _ => [] end) h.
+Definition tout2_eqb (a b : tout2) : bool :=
+  match a, b with
+  | OBase x, OBase y => tout_eqb x y
+  | OStart x, OStart y => x =? y
+  | _, _ => false
+  end.
+(* the Started event of a step / hook comes BEFORE the record that tells its span: spans are looked up in all records *)
+Fixpoint labels_of2 (cbs : list (N * N * N * N)) (inloop : bool) (h : list trec) : list tlabel2 * list tout2 :=
+  match h with
+  | [] => ([], [])
+  | r :: t =>
+    match r with
+    | RCb _ _ _ _ => labels_of2 cbs false t
+    | REmit s m x => let '(ls, os) := labels_of2 cbs false t in (LBase (TEmit s m x) :: ls, os)
+    | RClose x => let '(ls, os) := labels_of2 cbs false t in (LBase (TClose x) :: ls, os)
+    | RSub x => let '(ls, os) := labels_of2 cbs false t in (LBase (TSub x) :: ls, os)
+    | RFwd =>
+      let continues := match t with r' :: _ => is_logev r' | [] => false end in
+      let '(ls, os) := labels_of2 cbs continues t in
+      ((if inloop then ls else LBase TFwd :: ls), os)
+    | RLogEv s _ m =>
+      let '(ls, os) := labels_of2 cbs inloop t in
+      (ls, OBase (TLog s (match m with Some x => x | None => 0 end)) :: os)
+    | REv e =>
+      match step_started e with
+      | Some (s, st, k) =>
+        match span_of cbs s st k with
+        | Some x => let '(ls, os) := labels_of2 cbs false t in (LStart x :: ls, OStart x :: os)
+        | None => labels_of2 cbs false t
+        end
+      | None =>
+        match step_result e with
+        | Some (s, st, k) =>
+          match span_of cbs s st k with
+          | Some x => let '(ls, os) := labels_of2 cbs false t in (LBase (TResult x) :: ls, OBase (TRes x) :: os)
+          | None => labels_of2 cbs false t
+          end
+        | None => labels_of2 cbs false t
+        end
+      end
+    end
+  end.
+Definition same_as_model2 (c : tcase) : bool :=
+  let h := tc_history c in
+  let afters := after_spans h in
+  let '(ls, os) := labels_of2 (all_cbs h) false h in
+  match texec2 (fun x => memN x afters) tinit2 ls with
+  | Some (_, out) => list_eqb tout2_eqb out os
+  | None => false
+  end.
+
 (* ---- the monitor ---- *)
 Record mon := mk_mon {
   m_cbs : list (N * N * N * N);          (* scenario, step, attempt, span *)
@@ -146,4 +202,4 @@ Definition known20 (c : tcase) : N :=
 Definition c20_relaxed_ok (c : tcase) : bool := mon_walk true (mk_mon [] [] [] []) (tc_history c).
 
 Definition verdict (id : N) (c : tcase) : list (list N) :=
-  [vrow id 1 (judge (c20_ok c) (same_as_model c && c20_relaxed_ok c) (known20 c))].
+  [vrow id 1 (judge (c20_ok c) (same_as_model c && same_as_model2 c && c20_relaxed_ok c) (known20 c))].
